@@ -90,11 +90,11 @@ Example c20_nonvacuous :
   sc_out (scalls (run c20_demo) 1) =
     [SOpened 2; SRecv {| m_seqno := 7; m_tag := 1; m_ver := true; m_from := 0 |}] /\
   sc_dst (scalls (run c20_demo) 1) = 0.
-Proof. split; reflexivity. Qed.
+Proof. split; vm_compute; reflexivity. Qed.
 (* ... and the same message signed by peer 2 is not delivered but ends the call *)
 Example c20_nonvacuous_forged :
   let st := run [SessStart 0 0 0 (RInit (Some 1)); SessStart 1 1 0 (RInit (Some 0));
                  SessReq 0 2 (RSend {| m_seqno := 7; m_tag := 1; m_ver := true; m_from := 2 |});
                  SessIter 1; SessEnd 0 false] in
   sc_out (scalls st 1) = [SOpened 2] /\ sc_st (scalls st 0) = Ended ERejected.
-Proof. split; reflexivity. Qed.
+Proof. split; vm_compute; reflexivity. Qed.
